@@ -154,7 +154,7 @@ def r1(run, ctx):
                     isinstance(n.right, ast.Name) and n.right.id in taint and \
                     isinstance(n.left, ast.Constant) and isinstance(n.left.value, str):
                 pass   # '%r' % value is total for JSON values (no tuples)
-    run.count('R1', len(ops), 4, 'operations applied to wire-derived values in dispatch')
+    run.count('R1', len(ops), 3, 'operations applied to wire-derived values in dispatch')
     for node, n, name, kind, what, raises in ops:
         ok = False
         why = ''
@@ -326,7 +326,7 @@ def r3(run, ctx):
         run.check('R3', not bad, 'send_response is given a mapping', caller, s.node.ast,
                   'send_response is called with a %s literal, which it rejects by raising: '
                   'the request is never answered' % (type(getattr(arg, 'value', '')).__name__))
-    run.count('R3', n, 2, 'call sites of send_response')
+    run.count('R3', n, 1, 'call sites of send_response')
     # send_error / send_ok build their reply with error()/ok() (dict displays)
     for key, builder in ((C + 'send_error', 'error'), (C + 'send_ok', 'ok')):
         g = ctx.fn(key)
@@ -416,7 +416,7 @@ def r4(run, ctx):
               if dotted(c.func) in ('functools.partial', 'partial')]:
         run.check('R4', len(c.args) > 3 and isinstance(c.args[3], ast.Name) and c.args[3].id == 'mid',
                   'the id is bound into the completion callback', d, c)
-    run.count('R4', n, 8, 'reply call sites in the controller')
+    run.count('R4', n, 5, 'reply call sites in the controller')
 
 
 # -- R5 -----------------------------------------------------------------------
@@ -448,7 +448,7 @@ def r5(run, ctx):
                   (bad[0] if bad else e.node),
                   "the command result overwrites the reply's %s: the reply status is neither "
                   "'ok' nor 'error'" % (sorted(bad[1]) if bad else ''))
-    run.count('R5', n, 20, 'command execute methods')
+    run.count('R5', n, 15, 'command execute methods')
     okf = ctx.fn('circus.commands.base:ok')
     run.check('R5', any(astq.call_last(c) == 'update' for nd in ctx.live_nodes(okf)
                         for c in nd.calls()), 'ok() merges the command result into the '
@@ -489,7 +489,7 @@ def r6(run, ctx):
                               'have failed: the exception is re-raised inside the callback, the '
                               'relay/reply is skipped and a waiting request is never answered')
         # every path invokes the relay / reply
-    run.count('R6', n, 2, '.result() calls in done-callbacks')
+    run.count('R6', n, 1, '.result() calls in done-callbacks')
     # TransformableFuture relays on every path
     f = ctx.fn('circus.util:TransformableFuture._internal_callback')
     cfg = ctx.cfg(f)
